@@ -8,14 +8,13 @@ package c16
 
 import (
 	"context"
-	"crypto/x509/pkix"
-	"encoding/asn1"
 	"errors"
 	"fmt"
 	"io"
 	"math/rand"
 	"net"
 	"net/url"
+	"strings"
 	"sync"
 	"time"
 
@@ -47,12 +46,15 @@ const TraceN = 16
 type Entry struct {
 	Leaf    ct.LeafEntry
 	Precert bool
-	// Class: how the (pre-)certificate inside the entry parses.
-	//   clean    - without complaint
-	//   nonfatal - the repository's parser yields the certificate together with non-fatal errors only (a 3-byte
-	//              iPAddress in the SAN, an empty AuthorityInfoAccess): such entries are matched like any other
-	//   fatal    - not a certificate at all (truncated DER): a Matcher-type matcher never gets to see it, a LeafMatcher does
-	Class string
+	// Class (ScanSelect.tla, ClassName): the layers of the defects the (pre-)certificate inside the entry carries -
+	//   clean                       none
+	//   der, field, der+field, ...  tolerable defects only (a strict decoder refuses the outer structure and a lenient one
+	//                               reads it; a field breaks its own syntax): the certificate can be read, such entries are
+	//                               matched like any other - real logs are full of them
+	//   fatal, fatal+...            not a certificate at all: a Matcher-type matcher never gets to see it, a LeafMatcher does
+	Class   string
+	Defects []string // the concrete defects (defects.go)
+	Fam     string   // family of the subject name: alpha | beta
 	CN      string
 	TS      uint64
 	DER     []byte // the (pre-)certificate as submitted
@@ -63,18 +65,16 @@ type World struct {
 	Entries []Entry
 }
 
-var (
-	oidSAN = asn1.ObjectIdentifier{2, 5, 29, 17}
-	oidAIA = asn1.ObjectIdentifier{1, 3, 6, 1, 5, 5, 7, 1, 1}
-)
+// WorldClasses is the pattern of the random worlds: every class of ScanSelect.tla; kinds alternate within a class.
+var WorldClasses = []string{"clean", "der", "field", "der+field", "fatal", "clean", "field+field", "der+der", "fatal+der+field", "der+field+field",
+	"der+der+field", "fatal+field"}
 
 // NewWorld builds MaxN entries: real X.509 / precertificate entries (leaf_input and extra_data encoded by harness/ref)
-// of the three parse classes.
+// of every class, the concrete defects drawn from the catalogue.
 func NewWorld(rng *rand.Rand) *World {
 	root := pki.NewRoot(pki.Opts{CN: "c16 root"})
 	w := &World{}
-	pattern := []string{"clean", "nonfatal", "clean", "nonfatal", "fatal"}
-	off := rng.Intn(len(pattern))
+	off := rng.Intn(len(WorldClasses))
 	flip := rng.Intn(2)
 	perClass := map[string]int{}
 	for i := 0; i < MaxN; i++ {
@@ -82,15 +82,53 @@ func NewWorld(rng *rand.Rand) *World {
 		if rng.Intn(3) == 0 {
 			fam = "beta"
 		}
-		class := pattern[(i+off)%len(pattern)]
+		class := WorldClasses[(i+off)%len(WorldClasses)]
 		perClass[class]++ // kinds alternate within a class, so every (class, kind) pair occurs
-		variant := 0
-		if class == "nonfatal" {
-			variant = rng.Intn(2)
-		}
-		w.Entries = append(w.Entries, buildEntry(root, i, class, (perClass[class]+flip)%2 == 0, fam, variant))
+		w.Entries = append(w.Entries, buildEntry(root, i, defectsFor(class, rng.Intn(60)), (perClass[class]+flip)%2 == 0, fam))
 	}
 	return w
+}
+
+// EntryDesc describes one entry of a log (replay files carry the whole log in this form).
+type EntryDesc struct {
+	Precert bool
+	Fam     string
+	Defects []string
+}
+
+// Desc describes the log entry by entry.
+func (w *World) Desc() []EntryDesc {
+	out := make([]EntryDesc, len(w.Entries))
+	for i := range w.Entries {
+		e := &w.Entries[i]
+		out[i] = EntryDesc{Precert: e.Precert, Fam: e.Fam, Defects: append([]string{}, e.Defects...)}
+	}
+	return out
+}
+
+// NewWorldFromDesc rebuilds a log from its description (clean entries are added up to MaxN).
+func NewWorldFromDesc(d []EntryDesc) (*World, error) {
+	if len(d) > MaxN {
+		return nil, fmt.Errorf("the described log has %d entries, the harness is built for %d", len(d), MaxN)
+	}
+	root := pki.NewRoot(pki.Opts{CN: "c16 root"})
+	w := &World{}
+	for i := 0; i < MaxN; i++ {
+		x := EntryDesc{Fam: "alpha"}
+		if i < len(d) {
+			x = d[i]
+		}
+		if x.Fam != "alpha" && x.Fam != "beta" {
+			return nil, fmt.Errorf("entry %d: family %q", i, x.Fam)
+		}
+		for _, df := range x.Defects {
+			if _, ok := DefectLayer[df]; !ok {
+				return nil, fmt.Errorf("entry %d: unknown defect %q", i, df)
+			}
+		}
+		w.Entries = append(w.Entries, buildEntry(root, i, x.Defects, x.Precert, x.Fam))
+	}
+	return w, nil
 }
 
 // WorldSpec is the log content a specification prescribes (ScannerFanoutMC.tla, record WORLD): per index the entry
@@ -99,8 +137,8 @@ type WorldSpec struct {
 	Kind, Class, Fam []string
 }
 
-// NewWorldFrom builds the entries the specification describes.
-func NewWorldFrom(ws *WorldSpec) (*World, error) {
+// NewWorldFrom builds the entries the specification describes; pick selects the concrete defects of each class.
+func NewWorldFrom(ws *WorldSpec, pick int) (*World, error) {
 	if len(ws.Kind) != MaxN || len(ws.Class) != MaxN || len(ws.Fam) != MaxN {
 		return nil, fmt.Errorf("the specification's log has %d/%d/%d entries, the harness is built for %d", len(ws.Kind), len(ws.Class), len(ws.Fam), MaxN)
 	}
@@ -110,26 +148,24 @@ func NewWorldFrom(ws *WorldSpec) (*World, error) {
 		if ws.Kind[i] != "x509" && ws.Kind[i] != "precert" || ws.Fam[i] != "alpha" && ws.Fam[i] != "beta" {
 			return nil, fmt.Errorf("entry %d: kind %q family %q", i, ws.Kind[i], ws.Fam[i])
 		}
-		w.Entries = append(w.Entries, buildEntry(root, i, ws.Class[i], ws.Kind[i] == "precert", ws.Fam[i], i/2%2))
+		if _, ok := classProfile(ws.Class[i]); !ok {
+			return nil, fmt.Errorf("entry %d: class %q", i, ws.Class[i])
+		}
+		w.Entries = append(w.Entries, buildEntry(root, i, defectsFor(ws.Class[i], pick+i), ws.Kind[i] == "precert", ws.Fam[i]))
 	}
 	return w, nil
 }
 
-// buildEntry makes entry i of a log: a (pre-)certificate for h<i>.<fam>.test of the given parse class with the
-// timestamp 1700000000000 + 1000*i ms (so that the second of the timestamp has the parity of i).
-func buildEntry(root *pki.Node, i int, class string, precert bool, fam string, variant int) Entry {
-	e := Entry{Precert: precert, CN: fmt.Sprintf("h%d.%s.test", i, fam), TS: uint64(1700000000000 + i*1000), Class: class}
+// buildEntry makes entry i of a log: a (pre-)certificate for h<i>.<fam>.test carrying the given defects of the
+// catalogue (defects.go), with the timestamp 1700000000000 + 1000*i ms (so that the second of the timestamp has the
+// parity of i).  The certificate is issued clean by the standard library; the defects are edits of the bytes the log
+// entry carries where a scan reads them: the certificate of an X.509 entry, the TBSCertificate of a precertificate entry.
+func buildEntry(root *pki.Node, i int, defects []string, precert bool, fam string) Entry {
+	e := Entry{Precert: precert, Fam: fam, CN: fmt.Sprintf("h%d.%s.test", i, fam), TS: uint64(1700000000000 + i*1000),
+		Class: classOfDefects(defects), Defects: append([]string{}, defects...)}
 	o := pki.Opts{CN: e.CN, DNS: []string{e.CN}}
 	if e.Precert {
 		o.Poison = "ok"
-	}
-	if e.Class == "nonfatal" {
-		o.Unparsable = true
-		if variant == 0 {
-			o.Extra = []pkix.Extension{{Id: oidSAN, Value: []byte{0x30, 0x05, 0x87, 0x03, 1, 2, 3}}} // iPAddress of 3 bytes
-		} else {
-			o.Extra = []pkix.Extension{{Id: oidAIA, Value: []byte{0x30, 0x00}}} // empty AuthorityInfoAccess
-		}
 	}
 	leaf := root.Issue(o)
 	e.DER = leaf.DER
@@ -140,15 +176,21 @@ func buildEntry(root *pki.Node, i int, class string, precert bool, fam string, v
 	if (ent.Type == ref.PrecertEntry) != e.Precert {
 		panic("entry type")
 	}
-	if e.Class == "fatal" {
-		// the logged (pre-)certificate is cut in the middle; the TLS structures around it are intact
-		e.CN = ""
+	if len(defects) > 0 {
+		// the TLS structures around the (pre-)certificate stay intact
 		if e.Precert {
-			ent.TBS = ent.TBS[:len(ent.TBS)/2]
+			if ent.TBS, err = applyDefects(ent.TBS, true, defects); err != nil {
+				panic(err)
+			}
 		} else {
-			ent.Cert = ent.Cert[:len(ent.Cert)/2]
+			if ent.Cert, err = applyDefects(ent.Cert, false, defects); err != nil {
+				panic(err)
+			}
 			e.DER = ent.Cert
 		}
+	}
+	if isFatalClass(e.Class) {
+		e.CN = ""
 	}
 	e.Leaf.LeafInput = ref.MerkleTreeLeaf(e.TS, ent, nil)
 	if e.Precert {
@@ -159,21 +201,48 @@ func buildEntry(root *pki.Node, i int, class string, precert bool, fam string, v
 	return e
 }
 
-// CheckClasses confirms the precondition the classes rest on (an input check, not an oracle): the repository's parser
-// accepts the clean entries silently, yields the nonfatal ones with non-fatal errors only, refuses the fatal ones.
+// classProfile: ScanSelect.tla, Profile - how many defects of each tolerable layer, whether a fatal one.
+func classProfile(class string) (p struct {
+	Der, Field int
+	Fatal      bool
+}, ok bool) {
+	if class == "clean" {
+		return p, true
+	}
+	for _, l := range strings.Split(class, "+") {
+		switch l {
+		case "der":
+			p.Der++
+		case "field":
+			p.Field++
+		case "fatal":
+			if p.Fatal {
+				return p, false
+			}
+			p.Fatal = true
+		default:
+			return p, false
+		}
+	}
+	return p, true
+}
+
+// CheckClasses confirms that the defects were materialized (an input check, not an oracle): the repository's parser
+// notices nothing in a clean entry, notices something in every other entry, and does not read a certificate out of an
+// entry with a fatal defect.  Whether an entry with tolerable defects only is READ is not checked here: that is the
+// statement of ScanSelect.tla (TolerableComposes) and is judged by what the scan delivers.
 func (w *World) CheckClasses() error {
 	for i := range w.Entries {
 		e := &w.Entries[i]
 		le, err := ct.LogEntryFromLeaf(int64(i), &e.Leaf)
-		got := "clean"
+		read := le != nil && (le.X509Cert != nil || le.Precert != nil)
 		switch {
-		case le == nil || x509.IsFatal(err):
-			got = "fatal"
-		case err != nil:
-			got = "nonfatal"
-		}
-		if got != e.Class {
-			return fmt.Errorf("entry %d (precert=%v) was built as %s but parses as %s: %v", i, e.Precert, e.Class, got, err)
+		case e.Class == "clean" && err != nil && read:
+			return fmt.Errorf("entry %d (precert=%v) was issued clean by the standard library, the parser complains: %v", i, e.Precert, err)
+		case e.Class != "clean" && err == nil:
+			return fmt.Errorf("entry %d (precert=%v) carries the defects %v, the parser notices nothing", i, e.Precert, e.Defects)
+		case isFatalClass(e.Class) && read && !x509.IsFatal(err):
+			return fmt.Errorf("entry %d (precert=%v) carries the fatal defects %v, the parser reads a certificate: %v", i, e.Precert, e.Defects, err)
 		}
 	}
 	return nil
